@@ -42,6 +42,13 @@ def layouts(tier):
         # any character (non-ASCII letters and digits included) inside a name and right behind a reference
         m([['%define ', N1, ['x', 1], ' ', D1], ['k1 $', ['ref', 0, 1], ['ref', 0, 2]]]),
         m([['%define ', N1, ' v'], ['k1 $', ['ref', 0, 1], ['x', 1], ' ${', ['ref', 0, 1], '}', ['x', 1]]]),
+        # whitespace INSIDE a value is part of the value: a run of two whitespace characters (or one that
+        # is not a blank) against the single blank in a re-definition, and as seen through a reference
+        m([['%define ', N1, ' ', D1, ['s', 2], D1], ['%define ', ['ref', 0, 1], ' ', ['ref', 0, 3], ' ', ['ref', 0, 5]],
+           ['k1 [$', ['ref', 0, 1], ']']]),
+        m([['%define ', N1, ' ', D1, ['s', 1], D1], ['%define ', ['ref', 0, 1], ' ', ['ref', 0, 3], ' ', ['ref', 0, 5]],
+           ['k1 [$', ['ref', 0, 1], ']']]),
+        m([['%define ', N1, ' ', D1, ['s', 2], D1], ['k1 [$', ['ref', 0, 1], ']']]),
         [['main.conf', [['%define ', N1, ' v'], '%include inc.conf', ['k2 $', N1]]],
          ['inc.conf', [['k1 $', N1], ['%define ', N1, ' w']]]],
         [['main.conf', ['%include a/inc.conf', ['k2 $', N1]]],
